@@ -13,6 +13,9 @@ Parts (corpus cases of the two repaired defects are run first, through the same 
      per extracted frequency, and it is the table entry of the pole that produced that frequency.
   I  input forms the property does not restrict: every array input read-only, option values as NumPy scalars / 0-d arrays,
      records stored as integers of any width or float32 - the same variances as the plain form of the same values.
+  C  call forms: build_hank, SSI_fast, SSI_poles, SSI_mpe, SSIdat/SSIcov.mpe, SingleSetup(...) and SingleSetup.mpe also called with
+     EVERY argument by position, in the documented parameter order (written out in this file), optional parameters at values that
+     are not their defaults: the same result as with keywords, and the oracles of parts F / P / A on that result.
   G  SSIcov(calc_unc=True) through SingleSetup (hard criteria loosened so nothing is masked): result.Fn_poles_cov identical to
      SSI_fast + SSI_poles on build_hank's own H, T, and judged against the finite-difference oracle; includes the small edge of
      the quantifier (l in {1,2}, br in {2,3}) with 2..30 factor columns, below / at / above the number of Hankel entries.
@@ -55,10 +58,72 @@ def identify(H, br, ordmax, dt):
     return Fn, Lam
 
 
-def identify_unc(H, T, br, ordmax, dt):
-    Obs, A, C, Q1, Q2, Q3, Q4 = ssi.SSI_fast(H, br, ordmax, calc_unc=True, T=T, nb=T.shape[1])
-    Fn, Xi, Phi, Lam, Fc, Xc, Pc = ssi.SSI_poles(Obs, A, C, ordmax, dt, calc_unc=True, Q1=Q1, Q2=Q2, Q3=Q3, Q4=Q4)
+def identify_unc(H, T, br, ordmax, dt, positional=False):
+    if positional:  # every argument by position, in the order of the documented signatures (see part C)
+        Obs, A, C, Q1, Q2, Q3, Q4 = ssi.SSI_fast(H, br, ordmax, 1, True, T, T.shape[1])
+        Fn, Xi, Phi, Lam, Fc, Xc, Pc = ssi.SSI_poles(Obs, A, C, ordmax, dt, 1, True, Q1, Q2, Q3, Q4)
+    else:
+        Obs, A, C, Q1, Q2, Q3, Q4 = ssi.SSI_fast(H, br, ordmax, calc_unc=True, T=T, nb=T.shape[1])
+        Fn, Xi, Phi, Lam, Fc, Xc, Pc = ssi.SSI_poles(Obs, A, C, ordmax, dt, calc_unc=True, Q1=Q1, Q2=Q2, Q3=Q3, Q4=Q4)
     return dict(Obs=Obs, A=A, C=C, Q=(Q1, Q2, Q3, Q4), Fn=Fn, Lam=Lam, Fn_cov=Fc)
+
+
+# ----------------------------------------------------------------------------------------------------------------
+# part C helpers: the same call with every argument given BY POSITION.  The parameter orders are those of the documented
+# signatures, written out literally at each call site below (never read from the code under test):
+#   build_hank(Y, Yref, br, method, calc_unc, nb)
+#   SSI_fast(H, br, ordmax, step, calc_unc, T, nb)
+#   SSI_poles(Obs, AA, CC, ordmax, dt, step, calc_unc, Q1, Q2, Q3, Q4)
+#   SSI_mpe(freq_ref, Fn_pol, Xi_pol, Phi_pol, order, Lab, rtol, Fn_cov, Xi_cov, Phi_cov)
+#   SSIdat.mpe / SSIcov.mpe(sel_freq, order, rtol);  SingleSetup(data, fs);  SingleSetup.mpe(name, sel_freq, order, rtol)
+# (step stays 1: other steps are outside this property's domain; every other optional parameter gets a value that is not its default)
+# ----------------------------------------------------------------------------------------------------------------
+def same_out(a, b, rtol=1e-12):
+    """Two results of the same call agree: same structure, same blank cells, values within rtol of the largest entry."""
+    if a is None or b is None:
+        return a is None and b is None
+    if isinstance(a, (list, tuple)) or isinstance(b, (list, tuple)):
+        return (isinstance(a, (list, tuple)) and isinstance(b, (list, tuple)) and len(a) == len(b)
+                and all(same_out(x, y, rtol) for x, y in zip(a, b)))
+    if isinstance(a, str) or isinstance(b, str):
+        return isinstance(a, str) and isinstance(b, str) and a == b
+    a, b = np.asarray(a), np.asarray(b)
+    if a.shape != b.shape:
+        return False
+    if a.dtype.kind not in "fc" and b.dtype.kind not in "fc":
+        return bool(np.array_equal(a, b))
+    fa, fb = np.isfinite(a), np.isfinite(b)
+    if not np.array_equal(fa, fb):
+        return False
+    if not fa.any():
+        return True
+    return bool(np.all(np.abs(a[fa] - b[fa]) <= rtol * np.abs(a[fa]).max()))
+
+
+def both_forms(ctx, case, entry, pos_call, kw_call):
+    """Runs one call in the form used everywhere else in this harness (optional parameters by keyword) and fully positionally.
+    Returns (status, result of the positional call or None); status 'ok' / 'differs' / 'both-raise'."""
+    ctx.hist("positional calls", entry)
+    res = []
+    for call in (kw_call, pos_call):
+        try:
+            res.append((call(), None))
+        except Exception as e:
+            res.append((None, e))
+    (kw, kw_err), (pos, pos_err) = res
+    if kw_err is not None and pos_err is not None and type(kw_err) is type(pos_err):
+        return "both-raise", None
+    if kw_err is not None or pos_err is not None:
+        def d(e):
+            return "a result" if e is None else "%s: %s" % (type(e).__name__, str(e)[:100])
+        ctx.fail("oracle", "%s called with every argument by position (documented parameter order) gives %s, the same values by keyword give %s"
+                 % (entry, d(pos_err), d(kw_err)), dict(case, positional_entry=entry), key="C17:%s:positional-call" % entry)
+        return "differs", pos
+    if not same_out(pos, kw):
+        ctx.fail("oracle", "%s called with every argument by position (documented parameter order) returns something else than the same "
+                 "values given by keyword" % entry, dict(case, positional_entry=entry), key="C17:%s:positional-call" % entry)
+        return "differs", pos
+    return "ok", pos
 
 
 def guards(H, A, ordmax):
@@ -97,14 +162,15 @@ def fd_variances(H, T, br, ordmax, dt, Lam0, h):
     return tot
 
 
-def check_propagation(ctx, case, H, T, br, ordmax, dt, src, reported=None):
+def check_propagation(ctx, case, H, T, br, ordmax, dt, src, reported=None, positional=False):
     """Part P on one input.  Returns the implementation's outputs (for part M) or None when the case is outside the guards.
     With `reported` (a variance table obtained elsewhere, e.g. result.Fn_poles_cov of the class) that table is judged against
-    the finite differences instead of the one SSI_poles returns here."""
+    the finite differences instead of the one SSI_poles returns here.  With `positional` the judged table comes from SSI_fast and
+    SSI_poles called with every argument by position."""
     H = np.asarray(H, float)
     T = np.asarray(T, float).reshape(H.size, -1)
     try:
-        out = identify_unc(H, T, br, ordmax, dt)
+        out = identify_unc(H, T, br, ordmax, dt, positional)
     except Exception as e:  # the property promises a variance on guarded inputs
         ok, gap, sep = guards(H, ssi.SSI_fast(H, br, ordmax)[1], ordmax)
         if ok:
@@ -198,17 +264,28 @@ def canon_cols(M):
     return np.array(cols).T if cols else M
 
 
-def check_factor(ctx, case, Y, Yr, br, nb, exprs, meta):
+def check_factor(ctx, case, Y, Yr, br, nb, exprs, meta, positional=False):
+    """exprs None: oracle only (no model evaluation).  positional: the judged H, T come from build_hank called with every argument
+    by position, and must be what the keyword form returns."""
     Y = np.asarray(Y, float)
     Yr = np.asarray(Yr, float)
     l, Ndat = Y.shape
     r = Yr.shape[0]
     ctx.count(case, nontrivial=bool(np.any(Y)))
-    try:
-        H, T = ssi.build_hank(Y, Yr, br, "cov_mm", calc_unc=True, nb=nb)
-    except Exception as e:
-        ctx.fail("oracle", "build_hank(calc_unc=True) raised %s" % type(e).__name__, case, key="C17:factor:raises")
-        return
+    if positional:
+        st, out = both_forms(ctx, case, "build_hank", lambda: ssi.build_hank(Y, Yr, br, "cov_mm", True, nb),
+                             lambda: ssi.build_hank(Y, Yr, br, "cov_mm", calc_unc=True, nb=nb))
+        if st == "both-raise":
+            ctx.fail("oracle", "build_hank(calc_unc=True) raised", case, key="C17:factor:raises")
+        if out is None or not isinstance(out, tuple) or len(out) != 2:
+            return
+        H, T = out
+    else:
+        try:
+            H, T = ssi.build_hank(Y, Yr, br, "cov_mm", calc_unc=True, nb=nb)
+        except Exception as e:
+            ctx.fail("oracle", "build_hank(calc_unc=True) raised %s" % type(e).__name__, case, key="C17:factor:raises")
+            return
     full, blocks, N, Nb = loops_estimates(Y, Yr, br, nb)
     rows, cols = full.shape
     if T is None or np.shape(T) != (rows * cols, nb):
@@ -226,6 +303,8 @@ def check_factor(ctx, case, Y, Yr, br, nb, exprs, meta):
         if np.allclose(G, devr @ devr.T / (nb * (nb - 1)), rtol=0, atol=1e-9 * np.abs(gram).max()) and rows * cols > 1:
             what += " - it is the row-major one"
         ctx.fail("oracle", what, case, key="C17:factor:gram")
+    if exprs is None:
+        return
     exprs.append("showMat (unc_factor_l QcOps %s %s %d %d %d %d %d %s %s)"
                  % (qc(Fraction(1, N)), qc(Fraction(1, Nb)), l, r, br, Ndat, nb, qc_mat(Y), qc_mat(Yr)))
     meta.append((case, T * math.sqrt(nb * (nb - 1)), scale))
@@ -667,6 +746,8 @@ def run(ctx):
             run_mpe_class(ctx, case)
         elif case["kind"] == "forms":
             run_forms(ctx, case)
+        elif case["kind"] == "positional":
+            run_positional(ctx, case)
 
     lap("corpus")
     # ---- part F
@@ -718,6 +799,9 @@ def run(ctx):
     # ---- part I: input forms the property does not restrict
     forms_stream(ctx)
     lap("input_forms")
+    # ---- part C: every entry point also with all arguments by position
+    positional_stream(ctx)
+    lap("positional_calls")
 
 
 LOOSE_HC = dict(conj=False, xi_max=1e9, mpc_lim=-1.0, mpd_lim=1e9, cov_max=1e300)  # hard criteria that mask nothing
@@ -891,20 +975,32 @@ def run_mpe_function(ctx, case, tabs=None):
         fin = np.isfinite(Fp)
         Pp = np.where(fin[:, :, None], r2.standard_normal(Fp.shape + (case["nch"],)) + 0j, np.nan)
         Ppc = np.where(fin[:, :, None], r2.uniform(1e-6, 1e-2, size=Fp.shape + (case["nch"],)), np.nan)
-        Lab = np.where(fin, 1, 0)
+        Lab = np.array(case["Lab"], int) if case.get("Lab") is not None else np.where(fin, 1, 0)
     else:
         Fp, Xp, Pp, Lab, Fpc, Xpc, Ppc = tabs
     order = case["order"]
+    rtol = case.get("rtol", 5e-2)
     ctx.hist("mpe order kind", "list" if isinstance(order, list) else str(type(order).__name__))
     ctx.hist("mpe request pattern (F found, M missed)", case.get("pattern"))
     ctx.count(case)
-    try:
-        out = ssi.SSI_mpe(list(case["sel_freq"]), Fp, Xp, Pp, order, Lab=Lab, rtol=5e-2, Fn_cov=Fpc.copy(), Xi_cov=Xpc.copy(), Phi_cov=Ppc.copy())
-    except Exception as e:
-        if len(case["sel_freq"]) == 0:
+    def by_keyword():
+        return ssi.SSI_mpe(list(case["sel_freq"]), Fp, Xp, Pp, order, Lab=Lab, rtol=rtol, Fn_cov=Fpc.copy(), Xi_cov=Xpc.copy(), Phi_cov=Ppc.copy())
+
+    if case.get("positional"):  # part C: the judged output comes from the fully positional call
+        st, out = both_forms(ctx, case, "SSI_mpe", lambda: ssi.SSI_mpe(list(case["sel_freq"]), Fp, Xp, Pp, order, Lab, rtol,
+                                                                      Fpc.copy(), Xpc.copy(), Ppc.copy()), by_keyword)
+        if st == "both-raise" and len(case["sel_freq"]) > 0:
+            ctx.fail("oracle", "SSI_mpe with covariance tables raised", case, key="C17:mpe:raises")
+        if out is None or not isinstance(out, tuple) or len(out) != 7:
             return
-        ctx.fail("oracle", "SSI_mpe with covariance tables raised %s" % type(e).__name__, case, key="C17:mpe:raises")
-        return
+    else:
+        try:
+            out = by_keyword()
+        except Exception as e:
+            if len(case["sel_freq"]) == 0:
+                return
+            ctx.fail("oracle", "SSI_mpe with covariance tables raised %s" % type(e).__name__, case, key="C17:mpe:raises")
+            return
     orders_req = order if isinstance(order, list) else ([order] if isinstance(order, int) else
                                                         ([] if out[3] is None else [int(out[3])]))
     check_aligned(ctx, case, out, (Fp, Fpc, Xpc), orders_req, "ssi.SSI_mpe(order=%s)" % ("list" if isinstance(order, list) else order))
@@ -1184,3 +1280,200 @@ def forms_stream(ctx):
             var.update(dtype=["int32", "float32", "uint16", "int64", "int16", "uint32"][(k // 3) % 6])
         run_forms(ctx, dict(kind="forms", refs=refs, br=br, nb=int(rng.integers(2, 9)), ordmax=ordmax, fs=float(rng.choice([20.0, 50.0])),
                             variant=var, Y=Y.tolist()))
+
+
+# ----------------------------------------------------------------------------------------------------------------
+# part C: the same calls with every argument by position (documented parameter order, hard-coded at the call sites)
+# ----------------------------------------------------------------------------------------------------------------
+POS_RTOL = 0.12   # not the default 5e-2: a request 8 % off a pole is found with this tolerance and missed with the default
+
+
+def run_positional(ctx, case):
+    e = case["entry"]
+    if e == "build_hank":
+        check_factor(ctx, case, case["Y"], case["Yref"], case["br"], case["nb"], None, None, positional=True)
+    elif e == "chain":
+        positional_chain(ctx, case)
+    elif e == "SSI_mpe":
+        run_mpe_function(ctx, dict(case, positional=True))
+    elif e == "class":
+        run_positional_class(ctx, case)
+
+
+def positional_chain(ctx, case):
+    """SSI_fast and SSI_poles (calc_unc=True), each in both call forms on the same input; then the finite-difference oracle of
+    part P on the table the positional calls produce."""
+    H = np.array(case["H"], float)
+    T = np.array(case["T"], float).reshape(H.size, -1)
+    br, ordmax, dt, nbc = case["br"], case["ordmax"], case["dt"], T.shape[1]
+    st, o = both_forms(ctx, case, "SSI_fast", lambda: ssi.SSI_fast(H, br, ordmax, 1, True, T, nbc),
+                       lambda: ssi.SSI_fast(H, br, ordmax, calc_unc=True, T=T, nb=nbc))
+    if o is not None and isinstance(o, tuple) and len(o) == 7 and o[3] is not None:
+        both_forms(ctx, case, "SSI_poles", lambda: ssi.SSI_poles(o[0], o[1], o[2], ordmax, dt, 1, True, o[3], o[4], o[5], o[6]),
+                   lambda: ssi.SSI_poles(o[0], o[1], o[2], ordmax, dt, calc_unc=True, Q1=o[3], Q2=o[4], Q3=o[5], Q4=o[6]))
+    check_propagation(ctx, case, H, T, br, ordmax, dt, "positional", positional=True)
+
+
+def positional_mpe_cases(ctx, count):
+    """Pole tables with well separated frequencies (ratio 1.6 between neighbours); requests: one that only the non-default rtol
+    finds (8 % off a pole; for find_min 0.08 Hz off - that mode takes rtol in Hz), near hits, misses; Lab marks poles stable from an order
+    o_st > 1 onwards only, so that find_min depends on it."""
+    rng = ctx.np_rng
+    for c in range(count):
+        ordmax = int(rng.integers(4, 8))
+        nch = int(rng.integers(2, 4))
+        shape = (ordmax, ordmax + 1)
+        base = 2.0 * 1.6 ** np.arange(ordmax) * (1 + 0.01 * rng.uniform(-1, 1, size=ordmax))
+        Fp = np.full(shape, np.nan)
+        for o in range(1, ordmax + 1):
+            Fp[:o, o] = base[:o] * (1 + 1e-4 * rng.standard_normal(o))
+        fin = np.isfinite(Fp)
+        Xp = np.where(fin, rng.uniform(0.005, 0.08, size=shape), np.nan)
+        Pp = np.where(fin[:, :, None], rng.standard_normal(shape + (nch,)) + 1j * rng.standard_normal(shape + (nch,)), np.nan)
+        Fpc = np.where(fin, 10.0 ** rng.uniform(-6, -1, size=shape), np.nan)
+        Xpc = np.where(fin, 10.0 ** rng.uniform(-8, -3, size=shape), np.nan)
+        Ppc = np.where(fin[:, :, None], 10.0 ** rng.uniform(-6, -2, size=shape + (nch,)), np.nan)
+        o_st = int(rng.integers(2, ordmax))
+        Lab = np.where(fin & (np.arange(ordmax + 1)[None, :] >= o_st), 1, 0)
+        mode = ("int", "list", "find_min")[c % 3]
+        sgn = float(rng.choice([-1.0, 1.0]))
+        if mode == "find_min":
+            m = int(rng.integers(1, o_st + 1))
+            idx = sorted(int(i) for i in rng.choice(o_st, size=m, replace=False))
+            off = rng.uniform(-0.01, 0.01, size=m)
+            off[int(rng.integers(m))] = 0.08 * sgn
+            req = [float(Fp[i, o_st] + d) for i, d in zip(idx, off)]
+            order, pat = "find_min", "F" * m
+        else:
+            o0 = int(rng.integers(2, ordmax + 1))
+            col = Fp[:o0, o0]
+            perm = [int(i) for i in rng.permutation(o0)]
+            found = [float(col[perm[0]] * (1 + 0.08 * sgn))] + [float(col[i] * (1 + 0.003 * rng.uniform(-1, 1))) for i in perm[1:]]
+            missed = [float(col[int(i)] * 1.3) for i in rng.permutation(o0)]
+            pat = ["F", "FM", "MF", "FMF", "FFM", "MFF", "MFMF"][int(rng.integers(7))]
+            req, fi, mi = [], 0, 0
+            for ch in pat:
+                if ch == "F" and fi < len(found):
+                    req.append(found[fi]); fi += 1
+                elif ch == "M" and mi < len(missed):
+                    req.append(missed[mi]); mi += 1
+            order = o0 if mode == "int" else [o0 if rng.random() < 0.6 else int(rng.integers(o0, ordmax + 1)) for _ in req]
+        case = dict(kind="positional", entry="SSI_mpe", rtol=POS_RTOL, pattern=pat, sel_freq=req, order=order, Fn_pol=Fp.tolist(),
+                    Xi_pol=Xp.tolist(), Fn_cov=Fpc.tolist(), Xi_cov=Xpc.tolist(), Lab=Lab.tolist(), nch=nch, seed_phi=int(rng.integers(1 << 30)))
+        yield case, (Fp, Xp, Pp, Lab, Fpc, Xpc, Ppc)
+
+
+def run_positional_class(ctx, case):
+    """SSIcov / SSIdat(cov_mm), calc_unc=True.  SingleSetup(data, fs) by position; after the run mpe three ways on the same object -
+    alg.mpe(sel_freq=, order=, rtol=), alg.mpe(sel_freq, order, rtol), setup.mpe(name, sel_freq, order, rtol) - with an order and an
+    rtol that are not the defaults: the same stored result, and every variance aligned with its frequency (part A's oracle)."""
+    from pyoma2.algorithms import SSIcov, SSIdat
+    from pyoma2.setup import SingleSetup
+    Y = np.array(case["Y"], float)
+    fs, cname = case["fs"], case["cls"]
+    cls = SSIcov if cname == "SSIcov" else SSIdat
+    ctx.count(case)
+
+    def build(positional):
+        ss = SingleSetup(Y.T.copy(), fs) if positional else SingleSetup(Y.T.copy(), fs=fs)
+        alg = cls(name="u", method="cov_mm", br=case["br"], ordmax=case["ordmax"], ref_ind=case["refs"], calc_unc=True, nb=case["nb"],
+                  hc=dict(LOOSE_HC))
+        ss.add_algorithms(alg)
+        ss.run_by_name("u")
+        return ss, alg
+
+    def tables(sa):
+        r = sa[1].result
+        return (r.Fn_poles, r.Fn_poles_cov, r.Xi_poles_cov)
+    made = {}
+    st, _ = both_forms(ctx, case, "SingleSetup", lambda: tables(made.setdefault("p", build(True))), lambda: tables(made.setdefault("k", build(False))))
+    if st == "both-raise":
+        ctx.fail("oracle", "%s(calc_unc=True).run raised" % cname, case, key="C17:glue:raises")
+    if "p" not in made:
+        return
+    ss, alg = made["p"]
+    res = alg.result
+    if res.Fn_poles_cov is None:
+        ctx.fail("oracle", "%s(calc_unc=True).result.Fn_poles_cov missing" % cname, case, key="C17:glue:shape")
+        return
+    Fp, Fpc, Xpc = np.asarray(res.Fn_poles, float), np.asarray(res.Fn_poles_cov, float), np.asarray(res.Xi_poles_cov, float)
+    rng = np.random.default_rng(case["seed_req"])
+    for req_spec in case.get("requests") or [None] * 3:
+        if req_spec is None:
+            cols = [o for o in range(2, Fp.shape[1]) if len(np.unique(Fp[np.isfinite(Fp[:, o]), o])) >= 2]
+            if not cols:
+                return
+            o0 = int(rng.choice(cols))
+            col = np.unique(Fp[np.isfinite(Fp[:, o0]), o0])
+            found = [float(x * (1 + 0.003 * rng.uniform(-1, 1))) for x in rng.permutation(col)]
+            # a request that only the non-default rtol finds: 8 % off a pole that stays the nearest one of its column
+            sens = [float(x * f) for x in rng.permutation(col) for f in (1.08, 0.92) if col[int(np.argmin(np.abs(col - x * f)))] == x]
+            ctx.hist("positional class request needs the non-default rtol", bool(sens))
+            if sens:
+                found = [sens[0]] + [f for f in found if abs(f - sens[0]) > 0.1 * sens[0]]
+            allf = Fp[np.isfinite(Fp)]
+            missed = [float(x) for x in np.concatenate([(col[:-1] + col[1:]) / 2, [col[-1] * 1.7 + 1.0, col[0] * 0.3]])
+                      if np.min(np.abs(allf - x) / np.maximum(allf, x)) > 0.2]
+            pat = ["F", "FM", "MF", "FMF", "FFM", "MFF"][int(rng.integers(6))]
+            req, fi, mi = [], 0, 0
+            for ch in pat:
+                if ch == "F" and fi < len(found):
+                    req.append(found[fi]); fi += 1
+                elif ch == "M" and mi < len(missed):
+                    req.append(missed[mi]); mi += 1
+            order = o0 if rng.random() < 0.5 else [o0 if (rng.random() < 0.7 or len(cols) < 2) else int(rng.choice(cols)) for _ in req]
+            req_spec = dict(pattern=pat, sel_freq=req, order=order)
+        if not req_spec["sel_freq"]:
+            continue
+        order, sel = req_spec["order"], req_spec["sel_freq"]
+        sub = dict({k: v for k, v in case.items() if k != "requests"}, requests=[req_spec])
+
+        def stored():
+            r = alg.result
+            return tuple(None if x is None else np.array(x, copy=True) for x in (r.Fn, r.Xi, r.Phi, r.order_out, r.Fn_cov, r.Xi_cov, r.Phi_cov))
+
+        def by_keyword():
+            alg.mpe(sel_freq=list(sel), order=order, rtol=POS_RTOL)
+            return stored()
+
+        def by_position():
+            alg.mpe(list(sel), order, POS_RTOL)
+            return stored()
+
+        def through_setup():
+            ss.mpe("u", list(sel), order, POS_RTOL)
+            return stored()
+        st, out = both_forms(ctx, sub, "%s.mpe" % cname, by_position, by_keyword)
+        st2, out2 = both_forms(ctx, sub, "SingleSetup.mpe", through_setup, by_keyword)
+        orders_req = order if isinstance(order, list) else [order]
+        for o_, site in ((out, "%s.mpe(sel_freq, order, rtol) by position" % cname), (out2, "SingleSetup.mpe(name, sel_freq, order, rtol) by position")):
+            if o_ is not None:
+                check_aligned(ctx, sub, o_, (Fp, Fpc, Xpc), orders_req, site)
+
+
+def positional_stream(ctx):
+    rng = ctx.np_rng
+    # build_hank: small dyadic records, reference rows that are NOT the record itself (a subset, a reversed order, or independent rows)
+    todo = ctx.n(10, 60)
+    for case in factor_cases(ctx, 6 * todo):
+        if case["refs"] is not None and case["refs"] == list(range(len(case["Y"]))):
+            continue
+        run_positional(ctx, dict(case, kind="positional", entry="build_hank"))
+        todo -= 1
+        if todo == 0:
+            break
+    # SSI_fast + SSI_poles: matrices of the sweep of part P (1-20 factor columns, never the default 100)
+    for case in propagation_cases(ctx, ctx.n(8, 60), small=False):
+        run_positional(ctx, dict(case, kind="positional", entry="chain"))
+    # SSI_mpe
+    for case, tabs in positional_mpe_cases(ctx, ctx.n(12, 120)):
+        run_mpe_function(ctx, dict(case, positional=True), tabs)
+    # the classes and the setup
+    for k in range(ctx.n(2, 12)):
+        l = int(rng.integers(2, 4))
+        refs = sorted(rng.choice(l, size=int(rng.integers(1, l + 1)), replace=False).tolist())
+        br = int(rng.integers(3, 6))
+        ordmax = int(min(6, br * l, (br + 1) * len(refs)))
+        run_positional(ctx, dict(kind="positional", entry="class", cls=("SSIcov", "SSIdat")[k % 2], refs=refs, br=br, ordmax=ordmax,
+                                 nb=int(rng.integers(4, 13)), fs=50.0, seed_req=int(rng.integers(1 << 30)),
+                                 Y=gen_data(rng, l, 6, int(rng.integers(900, 1500))).tolist()))
